@@ -16,8 +16,7 @@ pfba(model, fraction_of_optimum, objective, reactions)   [key `pfba`; proved for
     solver's status is not optimal and the context is closed.
   * READ.  get_solution(model, reactions=R) is called once, AFTER that solve, with nothing changed in between (solver status / value,
     objective, coefficients as the solve left them) and INSIDE the context (stack = entry stack + 1: before the pFBA objective is
-    rolled back); R is model.reactions when reactions is None, else model.reactions.get_by_any(reactions) (opaque, ASSUMED as in C19,
-    resolved BEFORE the context is entered).
+    rolled back); R is model.reactions when reactions is None, else model.reactions.get_by_any(reactions) (opaque, ASSUMED as in C19).
   * RETURN.  the value returned is THAT Solution, unchanged: its status is optimal and its objective_value is the solver's objective
     value of THAT solve (finite), i.e. of the total-flux objective.
   * CONTEXT.  the context stack is as at entry on return, when the solve raises (OptimizationError) and when add_pfba refuses a model
@@ -36,13 +35,51 @@ optimize_minimal_flux(*args, **kwargs)   [key `optimize_minimal_flux`]
 moma(model, solution, linear) / room(model, solution, linear, delta, epsilon)   [keys `moma`, `room`]
   * exactly one add_moma(model=model, solution=solution, linear=linear) / add_room(model=model, solution=solution, linear=linear,
     delta=delta, epsilon=epsilon) - every argument the driver's own, unchanged - first, on the untouched model, in the function's own
-    context; the PROVED contract of the builder is applied (add_moma: linear = True [and linear = False through `add_moma@quadratic`],
-    add_room: any linear / delta / epsilon) in its call-site form: the list handed to add_cons_vars is a ghost (len 2 + 3n resp.
-    2 + 2n, the documented entries), the objective installed is the documented one;
+    context; the PROVED contract of the builder is applied (add_moma: linear = True, and linear = False through `add_moma@quadratic`
+    below; add_room: any linear / delta / epsilon) in its call-site form: the list handed to add_cons_vars is a ghost (len 2 + 3n
+    resp. 2 + 2n, the documented entries), the objective installed is the documented one (lemmas `call-form-follows`);
   * then exactly ONE model.optimize() (own direction, default error handling), in that context, in a state in which that effect still
     holds; the Solution returned is the one of THAT solve (Model.optimize = solve + get_solution: status / objective_value are the
     solver's after it); the local name `solution` is rebound only then;
-  * the context is closed on return, when the solve raises and when the builder raises ValueError (already adjusted).
+  * the context is closed on return, when the solve raises, when the builder's reference pfba(model) raises (solution None: nothing
+    built) and when the builder raises ValueError (already adjusted).
+  Model.optimize() is called with its default raise_error=False: a status that still has primal values (e.g. "infeasible") does NOT
+  raise; the Solution then carries that status (proved: its status IS the solver's after the solve) - unlike pfba, which raises.
+Further down: add_moma with linear=False (key `add_moma@quadratic`), the upgrade of add_room / add_moma (linear) from the ASSUMED pfba
+to the proved contract `pfba` (new proved exit: OptimizationError with nothing built), and the lemmas.
+
+Hook tables: HOOKS (pfba, optimize_minimal_flux, moma, room), HOOKS_Q (add_moma@quadratic, add_room, add_moma); Q_HOOKS is what a
+property chains BEFORE c09_room.OWN_HOOKS.
+
+Mutation trials (tools/mutate_and_run.sh; every one NOT verified, obligation named):
+  pfba   get_solution moved out of the `with` block ....................... exit=return/post (sat)
+         slim_optimize(error_value=None) -> slim_optimize() ................ exit=return/post, exit=raise:OptimizationError/post (sat)
+         fraction_of_optimum=fraction_of_optimum -> =1.0 .................... exit=return/post (sat)
+         the solve deleted .................................................... exit=return/post (sat)
+         Solution read BEFORE the solve ....................................... exit=return/post (sat)
+         add_pfba called before the context is entered ...................... exit=return/post.1 (sat)
+         get_solution(m) without reactions= ................................... exit=return/post (sat)
+         a second slim_optimize() after the block ............................ exit=return/post (sat)
+  optimize_minimal_flux   pfba(*args) without **kwargs ....................... exit=return/post.1 (sat)
+  moma   optimize() moved out of the `with` block ........................... exit=return/post.10 (sat)
+         model.optimize() result dropped (the reference returned) ........... exit=return/post (sat)
+         solution=None instead of solution=solution .......................... case reference_given exit=return/post (sat)
+  room   delta / epsilon swapped .............................................. exit=return/post (sat)
+         optimize(objective_sense="maximize") ................................. exit=return/post (sat)
+         solved twice .......................................................... exit=return/post, exit=raise/post (sat)
+  add_moma@quadratic   reference paired by POSITION (fluxes.iloc[k]) ........ loop#0/inv-preserve.4 (unknown)
+         flux_expression + dist ................................................ loop#0/inv-preserve.4 (unknown)
+         dist instead of dist**2 ............................................... loop#0/inv-preserve.6 (unknown)
+         ub=flux dropped (inequality instead of equality) ..................... loop#0/inv-preserve.4 (unknown)
+         const not appended .................................................... loop#0/inv-preserve.1 (sat)
+         final objective direction="max" ....................................... exit=return/post.8 (sat)
+         pfba(model) called after the objective was replaced .................. exit=return/post (sat)
+         old-objective constraint built on the already replaced objective ..... loop#0/inv-init.3 (sat)
+         "already adjusted" check removed ...................................... already_moma: expected-ValueError (sat)
+         add_cons_vars call removed ............................................ exit=return/post (sat)
+  add_room (upgraded)   failure of the reference pfba swallowed (try/except: return None) ... reference_from_pfba exit=return#2/post.1 (sat)
+         pfba(model, 0.5) ........................................................ reference_from_pfba exit=return/post.1 (sat)
+  add_moma (upgraded)   pfba(model) called twice ................................ reference_from_pfba exit=return/post.1 (sat)
 """
 import copy
 import z3
